@@ -201,8 +201,11 @@ class AttrHarness(object):
         why = documented_misuse(self.kind, self.shape, self.picks)
         if not why and self.kind == "generic" and getattr(self, "tail", "").strip():
             why = "the fortran_generic entry has text (%r) after its parameter list" % self.tail.strip()
-        if not why and self.kind == "tmpl" and (self.decl or "").startswith("template"):
-            # (on a declaration without a template header the list is not read at all)
+        if not why and self.kind == "tmpl" and (self.decl or "").startswith("template") and \
+                ("(" in self.decl or self.decl.endswith("class C")):
+            # judged where the list is read: function templates and a new class template.  (Without a template header, on a
+            # variable / typedef / namespace / struct, and on `class Class1` - which re-declares a class the library already
+            # has, so that Shroud returns the existing node - nothing of the entry is read at all.)
             for txt in [d["instantiation"] for d in (getattr(self, "entry", None) or {}).get("cxx_template", [])]:
                 # a template argument list is '<' arguments '>' and nothing else (decided on the characters)
                 s_ = txt.strip()
